@@ -347,6 +347,34 @@ impl Check for C16 {
         }
         // plain values with extreme numbers
         let r = guard(|| -> Result<(), Failure> {
+            // MatchExt written by hand with numbers beyond 2^53 and at the top of the range
+            for (tt, a, b, l, c) in [
+                ((1usize << 53) + 1, 0usize, 1usize, 1usize, 1usize),
+                (usize::MAX - 1, usize::MAX - 3, usize::MAX - 2, (1 << 53) + 3, usize::MAX - 1),
+                (u32::MAX as usize + 7, (1 << 32) + 1, (1 << 32) + 9, u32::MAX as usize + 1, 65_537),
+            ] {
+                let hand = format!(
+                    "{{\"token_type\":{},\"span\":{{\"start\":{},\"end\":{}}},\"start_position\":{{\"line\":{},\"column\":{}}},\"end_position\":{{\"line\":{},\"column\":{}}}}}",
+                    tt, a, b, l, c, l, c + 1
+                );
+                let me: MatchExt = serde_json::from_str(&hand)
+                    .map_err(|e| Failure::new("c16.match_roundtrip", format!("hand-written MatchExt {} is rejected: {}", hand, e)))?;
+                if me.token_type() != tt
+                    || me.start() != a
+                    || me.end() != b
+                    || me.start_position().line != l
+                    || me.start_position().column != c
+                    || me.end_position().column != c + 1
+                {
+                    return Err(Failure::new("c16.match_roundtrip", "hand-written MatchExt JSON is not read back as written").exp_obs(&hand, me));
+                }
+                let again = serde_json::to_string(&me).unwrap();
+                let back: MatchExt = serde_json::from_str(&again)
+                    .map_err(|e| Failure::new("c16.match_roundtrip", format!("MatchExt does not round-trip: {}", e)))?;
+                if back != me {
+                    return Err(Failure::new("c16.match_roundtrip", "MatchExt does not round-trip").exp_obs(me, back));
+                }
+            }
             for (a, b) in [(0usize, 0usize), (0, usize::MAX), (usize::MAX - 1, usize::MAX), (7, 3)] {
                 let sp = Span::new(a, b);
                 let back: Span = serde_json::from_str(&serde_json::to_string(&sp).unwrap())
